@@ -62,14 +62,14 @@ Definition mult_closed_gen (st : rstate) (ba : list (option Z)) (rcf : recipes_t
 Lemma close_mult_gen P ms ds after K st ba rc anchor n0 a0 o0 es :
   Forall inner P -> digits_ok ds = true -> endk K ->
   s_branch_anchor st = ba ++ [anchor] -> s_recipes st = rc ++ [(anchor, (n0, a0, o0) :: es)] ->
-  length rc = length ba -> rec_get anchor rc = None ->
+  rec_get anchor rc = None ->
   let entry := (n0, a0, match ms with Some s => Some (sym_ord s) | None => o0 end) :: es in
   close_branch (P ++ ")"%char :: osym_str ms ++ "|"%char :: digits_str ds ++ after_tail after K) 0 st
   = ('(g, cur, _, base) <- exp_times (digits_nat ds - 1) [(anchor, entry)] (s_g st) (s_current st) anchor (Some anchor) ;;
      prev <- of_option base EUnbound ;;
      Ok (mult_closed_gen st ba (rc ++ [(anchor, entry)]) g cur prev base after, Datatypes.S (length P))).
 Proof.
-  intros HP Hd HK Hba Hrc Hlen Habs entry. destruct (digits_ok_all ds Hd) as [Hall Hne].
+  intros HP Hd HK Hba Hrc Habs entry. destruct (digits_ok_all ds Hd) as [Hall Hne].
   unfold close_branch. rewrite Hba, rev_app_distr. cbn [rev app]. rewrite rev_involutive. change (fnc_from ?r ?c 0) with (fnc0 r c).
   rewrite fnc0_spec, (find_idx_inner _ fnc_eon_a HP incl_eon_a). cbn [find_idx].
   change (str_in [")"%char] fnc_eon_a) with true. cbv iota. rewrite Nat.add_0_r. cbn [bind].
@@ -130,7 +130,7 @@ Qed.
 Lemma close_all_mult_gen_k P ms ds after K st ba rc anchor n0 a0 o0 es :
   Forall inner P -> digits_ok ds = true -> endk K ->
   s_branch_anchor st = ba ++ [anchor] -> s_recipes st = rc ++ [(anchor, (n0, a0, o0) :: es)] ->
-  length rc = length ba -> rec_get anchor rc = None ->
+  rec_get anchor rc = None ->
   let entry := (n0, a0, match ms with Some s => Some (sym_ord s) | None => o0 end) :: es in
   let text := P ++ ")"%char :: osym_str ms ++ "|"%char :: digits_str ds ++ after_tail after K in
   close_all text st
@@ -138,23 +138,23 @@ Lemma close_all_mult_gen_k P ms ds after K st ba rc anchor n0 a0 o0 es :
      prev <- of_option base EUnbound ;;
      close_loop (length text) text (Datatypes.S (length P)) (mult_closed_gen st ba (rc ++ [(anchor, entry)]) g cur prev base after)).
 Proof.
-  intros HP Hd HK Hba Hrc Hlen Habs entry text. unfold text. rewrite close_all_first by assumption.
-  rewrite (close_mult_gen P ms ds after K st ba rc anchor n0 a0 o0 es HP Hd HK Hba Hrc Hlen Habs). cbv zeta. fold entry.
+  intros HP Hd HK Hba Hrc Habs entry text. unfold text. rewrite close_all_first by assumption.
+  rewrite (close_mult_gen P ms ds after K st ba rc anchor n0 a0 o0 es HP Hd HK Hba Hrc Habs). cbv zeta. fold entry.
   destruct (exp_times _ _ _ _ _ _) as [[[[g cur] pn] base]|]; cbn [bind]; [|reflexivity].
   destruct base as [b|]; cbn [of_option bind]; reflexivity.
 Qed.
 Lemma close_all_mult_gen P ms ds after K st ba rc anchor n0 a0 o0 es :
   Forall inner P -> digits_ok ds = true -> cont K ->
   s_branch_anchor st = ba ++ [anchor] -> s_recipes st = rc ++ [(anchor, (n0, a0, o0) :: es)] ->
-  length rc = length ba -> rec_get anchor rc = None ->
+  rec_get anchor rc = None ->
   let entry := (n0, a0, match ms with Some s => Some (sym_ord s) | None => o0 end) :: es in
   close_all (P ++ ")"%char :: osym_str ms ++ "|"%char :: digits_str ds ++ after_tail after K) st
   = ('(g, cur, _, base) <- exp_times (digits_nat ds - 1) [(anchor, entry)] (s_g st) (s_current st) anchor (Some anchor) ;;
      prev <- of_option base EUnbound ;;
      Ok (mult_closed_gen st ba (rc ++ [(anchor, entry)]) g cur prev base after)).
 Proof.
-  intros HP Hd HK Hba Hrc Hlen Habs entry. rewrite close_all_first by assumption.
-  rewrite (close_mult_gen P ms ds after K st ba rc anchor n0 a0 o0 es HP Hd (or_intror (cont_stopper K HK)) Hba Hrc Hlen Habs). cbv zeta. fold entry.
+  intros HP Hd HK Hba Hrc Habs entry. rewrite close_all_first by assumption.
+  rewrite (close_mult_gen P ms ds after K st ba rc anchor n0 a0 o0 es HP Hd (or_intror (cont_stopper K HK)) Hba Hrc Habs). cbv zeta. fold entry.
   destruct (exp_times _ _ _ _ _ _) as [[[[g cur] pn] base]|]; cbn [bind]; [|reflexivity].
   destruct base as [b|]; cbn [of_option bind]; [|reflexivity].
   apply close_loop_stop_after. now apply mult_tail_no_close.
@@ -170,7 +170,7 @@ Definition unit_done_gen (st : rstate) (ba : list (option Z)) (rcf : recipes_t) 
 
 Lemma node_step_mult_gen fo st pc nm m ms ds after K ba rc ak n0 a0 o0 es p pend :
   opened st pc = Ok (true, ba ++ [Some ak], rc ++ [(Some ak, (n0, a0, o0) :: es)]) ->
-  length rc = length ba -> rec_get (Some ak) rc = None ->
+  rec_get (Some ak) rc = None ->
   s_prev_node st = Some p -> s_pbo st = Some pend ->
   name_ok fo nm = true -> sn_ok m None -> digits_ok ds = true -> cont K ->
   node_step fo st pc nm (stail m None ++ ")"%char :: osym_str ms ++ "|"%char :: digits_str ds ++ after_tail after K)
@@ -182,7 +182,7 @@ Lemma node_step_mult_gen fo st pc nm m ms ds after K ba rc ak n0 a0 o0 es p pend
      prev <- of_option base EUnbound ;;
      Ok (unit_done_gen st ba (rc ++ [(Some ak, entry)]) a g3 c3 prev base after)).
 Proof.
-  intros Hop Hlen Habs Hp Hpb Hn Hs Hd HK. rewrite node_step_eq, Hop. cbn [bind].
+  intros Hop Habs Hp Hpb Hn Hs Hd HK. rewrite node_step_eq, Hop. cbn [bind].
   destruct (scan_simple m None ")"%char (osym_str ms ++ "|"%char :: digits_str ds ++ after_tail after K)
               (s_current st) (s_cycle st) Hs ltac:(repeat split)) as (xr & rdx & Es & Ec & Ece & Eb).
   rewrite Es. cbn [bind]. rewrite Eb. cbn [bind].
@@ -195,7 +195,7 @@ Proof.
   destruct (m_copies (mult_val m) a (s_g st) (s_current st) (Some p) pend) as [[g2 nx] pv] eqn:Ecp. cbn [bind].
   match goal with |- context [close_all _ ?S] =>
     rewrite (close_all_mult_gen (stail m None) ms ds after K S ba rc (Some ak) n0 a0 o0 (es ++ [(Z.of_nat (mult_val m), a, Some pend)])
-               (stail_inner m None Hs) Hd HK eq_refl eq_refl Hlen Habs) end.
+               (stail_inner m None Hs) Hd HK eq_refl eq_refl Habs) end.
   cbn [s_g s_current s_base_anchor]. cbv zeta.
   rewrite exp_times_single.
   destruct (copies_run _ _ g2 nx (Some ak) (Some (Some ak))) as [[[[g3 c3] pn] base]|]; cbn [bind]; [|reflexivity].
@@ -206,7 +206,7 @@ Qed.
 
 Lemma node_step_mult_gen_k fo st pc nm m ms ds after K ba rc ak n0 a0 o0 es p pend :
   opened st pc = Ok (true, ba ++ [Some ak], rc ++ [(Some ak, (n0, a0, o0) :: es)]) ->
-  length rc = length ba -> rec_get (Some ak) rc = None ->
+  rec_get (Some ak) rc = None ->
   s_prev_node st = Some p -> s_pbo st = Some pend ->
   name_ok fo nm = true -> sn_ok m None -> digits_ok ds = true -> endk K ->
   node_step fo st pc nm (stail m None ++ ")"%char :: osym_str ms ++ "|"%char :: digits_str ds ++ after_tail after K)
@@ -220,7 +220,7 @@ Lemma node_step_mult_gen_k fo st pc nm m ms ds after K ba rc ak n0 a0 o0 es p pe
      close_loop (length text) text (Datatypes.S (length (stail m None)))
                 (unit_done_gen st ba (rc ++ [(Some ak, entry)]) a g3 c3 prev base after)).
 Proof.
-  intros Hop Hlen Habs Hp Hpb Hn Hs Hd HK. rewrite node_step_eq, Hop. cbn [bind].
+  intros Hop Habs Hp Hpb Hn Hs Hd HK. rewrite node_step_eq, Hop. cbn [bind].
   destruct (scan_simple m None ")"%char (osym_str ms ++ "|"%char :: digits_str ds ++ after_tail after K)
               (s_current st) (s_cycle st) Hs ltac:(repeat split)) as (xr & rdx & Es & Ec & Ece & Eb).
   rewrite Es. cbn [bind]. rewrite Eb. cbn [bind].
@@ -233,7 +233,7 @@ Proof.
   destruct (m_copies (mult_val m) a (s_g st) (s_current st) (Some p) pend) as [[g2 nx] pv] eqn:Ecp. cbn [bind].
   match goal with |- context [close_all _ ?S] =>
     rewrite (close_all_mult_gen_k (stail m None) ms ds after K S ba rc (Some ak) n0 a0 o0 (es ++ [(Z.of_nat (mult_val m), a, Some pend)])
-               (stail_inner m None Hs) Hd HK eq_refl eq_refl Hlen Habs) end.
+               (stail_inner m None Hs) Hd HK eq_refl eq_refl Habs) end.
   cbn [s_g s_current s_base_anchor]. cbv zeta.
   rewrite exp_times_single.
   destruct (copies_run _ _ g2 nx (Some ak) (Some (Some ak))) as [[[[g3 c3] pn] base]|]; cbn [bind]; [|reflexivity].
@@ -257,7 +257,6 @@ Section UnitBodyGen.
   Hypothesis Hcs : closes_ok cs = true.
   Hypothesis Haft : cs <> [] -> u_after u = None.
   Hypothesis Hlcs : (length cs <= length stk)%nat.
-  Hypothesis Hlen : length rc = length stk.
   Hypothesis Habs : rec_get (Some ak) rc = None.
 
   Lemma unit_body_gen : forall body (first : bool) st x pre pc f es0,
@@ -275,6 +274,7 @@ Section UnitBodyGen.
         main_loop (length body + f) fo pc (pre ++ flat_map bnode_str body ++ closing_str u ++ closes_str cs ++ kt) st
         = main_loop f fo "]"%char (pre1 ++ kt) st1
         /\ Forall skipch pre1 /\ Rel st1 x1 /\ (m_stack x1 = [] -> s_recipes st1 = []) /\ m_stack x1 = skipn (length cs) stk
+        /\ (s_recipes st1 = [] \/ exists e, s_recipes st1 = rc ++ [(Some ak, e)])
     | Err e => main_loop (length body + f) fo pc (pre ++ flat_map bnode_str body ++ closing_str u ++ closes_str cs ++ kt) st = Err e
     end.
   Proof.
@@ -295,7 +295,6 @@ Section UnitBodyGen.
     destruct HR as (Rg & Rc & Rp & Rcy & Rba & Rbr & Rpb).
     assert (Hprev : exists p, m_prev x = Some p) by (destruct first; [exists ak; tauto|destruct (m_prev x); [eauto|tauto]]).
     destruct Hprev as (p & Ep). destruct (Rpb p Ep) as (Epb & Eat).
-    assert (Hlen' : length rc = length (rev stk)) by (now rewrite rev_length).
     assert (Hop : opened st (last pre pc) = Ok (true, rev stk ++ [Some ak], rc ++ [(Some ak, (1, a0, Some 1) :: es0)])).
     { unfold opened. rewrite Hpc. destruct first.
       - destruct Hfirst as (Es & Epk & Erc & Eatt & ->). rewrite Rp, Epk, Rg, Eatt. cbn [bind]. rewrite Rba, Es, Erc. reflexivity.
@@ -304,7 +303,7 @@ Section UnitBodyGen.
     - unfold last_bond_none in Hlast. cbn in Hlast. rewrite Hlast in *.
       unfold RT. rewrite Hlast. cbn [flat_map app]. rewrite closing_K.
       rewrite (node_step_mult_gen_k fo st (last pre pc) (bn_name b) (bn_mult b) (u_ms u) (u_count u) (u_after u) K (rev stk) rc ak 1 a0 (Some 1) es0 p (m_pend x)
-                 Hop Hlen' Habs (eq_trans Rp Ep) Epb Hnm Hs Hd HKs).
+                 Hop Habs (eq_trans Rp Ep) Epb Hnm Hs Hd HKs).
       assert (Em : forall ts, m_run fo ((if first then [TOpen] else []) ++ ts) x
                    = m_run fo ts (mk_m (m_g x) (m_next x) (Some p) (m_pend x) (Some ak :: stk) (m_rings x))).
       { intros ts. destruct first.
@@ -352,7 +351,7 @@ Section UnitBodyGen.
       assert (Epos : Datatypes.S (length (stail (bn_mult b) None)) = length Q0) by (unfold Q0; rewrite app_length; cbn [length]; lia).
       cbv zeta. rewrite Etext, Epos.
       destruct (closes_sim fo cs (length (Q0 ++ Q1 ++ closes_str cs ++ kt)) Q0 Q1 kt stU xU HQ1 HK Hcs HRU)
-        as (x1 & st1 & Em1 & El1 & HR1 & _ & _ & _ & Estk1 & Hnil1 & Hrec1 & _).
+        as (x1 & st1 & Em1 & El1 & HR1 & _ & _ & _ & Estk1 & Hnil1 & Hrec1 & Hkeep1).
       { unfold stU, unit_done_gen. cbn [s_attributes]. discriminate. }
       { unfold stU, xU, unit_done_gen. cbn [s_pbo m_pend]. now destruct (u_after u). }
       { intros Hne0. unfold xU. cbn [m_pend]. now rewrite (Haft Hne0). }
@@ -365,11 +364,17 @@ Section UnitBodyGen.
       split.
       { apply Forall_app; split; [now apply stail_skipch|]. constructor; [split; discriminate|].
         apply Forall_app; split; [eapply Forall_impl; [|exact HQ1]; apply inner_skipch|apply closes_inner_skip]. }
-      split; [exact HR1|]. split; [|rewrite Estk1; reflexivity].
-      intros E0. destruct cs as [|c0 r0].
-      + rewrite (Hnil1 eq_refl). rewrite Estk1 in E0. unfold xU in E0. cbn [m_stack length skipn] in E0.
-        unfold stU, unit_done_gen. cbn [s_recipes]. rewrite E0. reflexivity.
-      + apply Hrec1; [discriminate|exact E0].
+      split; [exact HR1|].
+      assert (HTU : s_recipes stU = [] \/ exists e, s_recipes stU = rc ++ [(Some ak, e)]).
+      { unfold stU, unit_done_gen. cbn [s_recipes]. destruct (rev stk); [left; reflexivity|right; eexists; reflexivity]. }
+      split; [|split; [rewrite Estk1; reflexivity|]].
+      { intros E0. destruct cs as [|c0 r0].
+        + rewrite (Hnil1 eq_refl). rewrite Estk1 in E0. unfold xU in E0. cbn [m_stack length skipn] in E0.
+          unfold stU, unit_done_gen. cbn [s_recipes]. rewrite E0. reflexivity.
+        + apply Hrec1; [discriminate|exact E0]. }
+      destruct cs as [|c0 r0]; [rewrite (Hnil1 eq_refl); exact HTU|].
+      destruct (m_stack x1) as [|z1 t1] eqn:Ex1; [left; apply Hrec1; [discriminate|reflexivity]|].
+      rewrite Hkeep1 by discriminate. exact HTU.
     - set (k := flat_map bnode_str (b' :: r) ++ closing_str u ++ K).
       assert (Hk : cont k) by (unfold k; cbn [flat_map]; unfold bnode_str at 1; cbn [app]; constructor).
       pose proof (blin_ok fo first b Hnm Hsn) as Hokb.
